@@ -20,7 +20,9 @@ Open Scope list_scope.
 
 Inductive loadobs := OCreateFailed | OAddFailed | OLoaded.
 
-Record reqobs := { ro_req : request; ro_calls : list call; ro_out : outcome }.
+(** [ro_fresh]: the same request served by an instance of the rule set built anew (no request before) *)
+Record reqobs := { ro_req : request; ro_calls : list call; ro_out : outcome;
+                   ro_fresh : option (list call * outcome) }.
 
 Record oentry := { oe_host : bool; oe_type : mtype; oe_pat : string; oe_val : string; oe_ans : bool }.
 
@@ -111,13 +113,27 @@ Definition outcome_ok (tbl : list sroute) (q : request) (cs : list call) (o : ou
     end
   end.
 
-Definition req_prop (otbl : list oentry) (eng : engine) (tbl : list sroute) (o : reqobs) : bool :=
-  forallb (call_known otbl tbl (ro_req o)) (ro_calls o) &&
-  forallb (call_ok eng tbl (ro_req o)) (ro_calls o) && outcome_ok tbl (ro_req o) (ro_calls o) (ro_out o).
-
 (** the part of a call trace the statement talks about *)
 Definition call_proj (k : call) : nat * mres := (k_vid k, k_res k).
 Definition proj_eqb (a b : nat * mres) : bool := Nat.eqb (fst a) (fst b) && mres_eqb (snd a) (snd b).
+
+(** history independence: whether a route matches and what is exposed is a function of the rule set and
+    of THIS request; the instance that has served other requests before answers like a new one *)
+Definition hist_ok (o : reqobs) : bool :=
+  match ro_fresh o with
+  | None => true
+  | Some (fcalls, fout) =>
+    outcome_eqb (ro_out o) fout && list_eqb proj_eqb (map call_proj (ro_calls o)) (map call_proj fcalls)
+  end.
+
+(** A view without RawPath is produced by no entry point (they always set it); its Path is the already decoded
+    path, for which "the percent-decoded raw segment" is not defined by the statement: for such a view only
+    "no panic" and history independence are required (and the model's correspondence). *)
+Definition req_prop (otbl : list oentry) (eng : engine) (tbl : list sroute) (o : reqobs) : bool :=
+  hist_ok o &&
+  if String.eqb (q_rawpath (ro_req o)) "" then negb (outcome_eqb (ro_out o) OPanic) else
+  forallb (call_known otbl tbl (ro_req o)) (ro_calls o) &&
+  forallb (call_ok eng tbl (ro_req o)) (ro_calls o) && outcome_ok tbl (ro_req o) (ro_calls o) (ro_out o).
 
 (** accepted or rejected; at which stage a rule set is rejected is not part of the statement *)
 Definition rejected_obs (a : loadobs) : bool := match a with OLoaded => false | _ => true end.
@@ -146,6 +162,6 @@ Definition rul s m h r sl b :=
   {| rl_scheme := s; rl_methods := m; rl_hosts := h; rl_routes := r; rl_slash := sl; rl_bt := b |}.
 Definition rq m s h p rp := {| q_method := m; q_scheme := s; q_host := h; q_path := p; q_rawpath := rp |}.
 Definition cl v k vs r := {| k_vid := v; k_keys := k; k_vals := vs; k_res := r |}.
-Definition ro q cs o := {| ro_req := q; ro_calls := cs; ro_out := o |}.
+Definition ro q cs o f := {| ro_req := q; ro_calls := cs; ro_out := o; ro_fresh := f |}.
 Definition oe h t p v a := {| oe_host := h; oe_type := t; oe_pat := p; oe_val := v; oe_ans := a |}.
 Definition cs r k o l q := {| c_rules := r; c_split := k; c_oracle := o; c_load := l; c_reqs := q |}.
